@@ -42,7 +42,9 @@ PROPS.update({
     "C14": {"suites": {"quick": POLICY("C14", 600, 30000)["quick"] + [("sched", {"profile": "C14", "count": 60, "per_case": 40}), ("sched", {"profile": "C14deep", "count": 60, "per_case": 40})],
                        "thorough": POLICY("C14", 600, 30000)["thorough"] + [("sched", {"profile": "C14", "count": 2000, "per_case": 400}), ("sched", {"profile": "C14deep", "count": 3000, "per_case": 300})]},
             "design": "6/C14", "projection": core.policy_projection()},
-    "C15": {"suites": POLICY("C15", 300, 10000), "design": "6/C15", "projection": core.policy_projection()},
+    "C15": {"suites": {"quick": POLICY("C15", 300, 10000)["quick"] + [("sched", {"profile": "C14", "count": 40, "per_case": 40}), ("sched", {"profile": "C14deep", "count": 40, "per_case": 40})],
+                       "thorough": POLICY("C15", 300, 10000)["thorough"] + [("sched", {"profile": "C14", "count": 1500, "per_case": 300}), ("sched", {"profile": "C14deep", "count": 2000, "per_case": 300})]},
+            "design": "6/C15", "projection": core.policy_projection()},
 })
 
 RULE_POLICY = ("policy: programs of 10-120 commands (stores, overwrites, appends, counter updates, deletes, flushes, TTLs and clock advances) over 2-8 keys "
